@@ -69,24 +69,31 @@ Definition mux (web : bool) (method p : bytes) : result :=
         else (if mem_bytes method api_methods then Routed (ApiObject b (join [slash] rest)) else MethodNotAllowed)
     end.
 
-(* MakeVirtualHostBucketAddressingMiddleware: the rewritten r.URL.Path *)
-Definition vhost_rewrite (api host path : bytes) : bytes :=
+(* MakeVirtualHostBucketAddressingMiddleware: the rewritten r.URL.Path.
+   [fixed = true]: the current code (/repo 18a80a7): only the bare root "/" or "" becomes "/bucket", everything
+   else is plain concatenation.  [fixed = false]: the code before that fix,
+   strings.TrimSuffix("/"+bucket+path, "/") (kept for the historical Examples). *)
+Definition vhost_rewrite (fixed : bool) (api host path : bytes) : bytes :=
   let h := strip_port host in
   let suffix := "."%byte :: api in
   if negb (bytes_eqb h api) && is_suffix suffix h then
     let bucket := trim_suffix suffix h in
-    if is_empty bucket then path else trim_suffix [slash] (slash :: bucket ++ path)
+    if is_empty bucket then path
+    else if fixed then
+      (if bytes_eqb path [slash] || is_empty path then slash :: bucket else slash :: bucket ++ path)
+    else trim_suffix [slash] (slash :: bucket ++ path)
   else path.
 
 (* MakeHostnameRoutingHandler + the handlers it dispatches to *)
-Definition route (api web host path method : bytes) : result :=
+Definition route_gen (fixed : bool) (api web host path method : bytes) : result :=
   let h := strip_port host in
   if bytes_eqb h api || is_suffix ("."%byte :: api) h then
-    mux false method (vhost_rewrite api host path)
+    mux false method (vhost_rewrite fixed api host path)
   else
     let bucket := trim_suffix ("."%byte :: web) h in
     if is_suffix ("."%byte :: web) h && negb (is_empty bucket) then mux true method (slash :: bucket ++ path)
     else mux true method (slash :: h ++ path).        (* custom domain: the host is the bucket *)
+Definition route := route_gen true.
 
 (* what the object handlers do before anything else: storage.NewObjectKey rejects the empty key *)
 Definition reaches_handler (r : result) : bool :=
